@@ -157,4 +157,40 @@ NormalAtHit == idx <= NV \/ LET image == Merge(Result[1]) IN
 EmitVoxels == idx <= NV \/ PrintT(<<"GEN", ToJson([w |-> W, h |-> H, d |-> D, t0 |-> T0,
                   bits |-> [i \in 1..NV |-> IF VoxSeq[i] \in neg THEN 1 ELSE 0],
                   height |-> [q \in 1..(W * H) |-> Merge(Result[1])[<<(q - 1) % W, (q - 1) \div W>>][1]]])>>)
+
+(***************************************************************************)
+(* Step-wise formulation: one tile decision per step (the grain of the     *)
+(* vox_tile hook events, see Trace_Tiles3.tla).  st = [out, agenda, ok];   *)
+(* the agenda lists the tiles still to be looked at, head first, as        *)
+(* <<level, corner>>.  An answer is "occ" (every pixel of the tile already *)
+(* at or above fill_z: the interval evaluator is not consulted), "neg",    *)
+(* "pos" or "amb".  A root-loop tile that answers "occ" or "neg" ends the  *)
+(* loop (`break`), a sub-tile's return value is ignored by its parent.     *)
+(* StepsAgree: driving the steps with the oracle gives exactly what the    *)
+(* recursive formulation gives (checked by TLC for every voxel set).       *)
+(***************************************************************************)
+RootAgenda == [i \in 1..KMax |-> <<1, <<0, 0, (KMax - i) * T0>>>>]
+StepInit == [out |-> [p \in Cols |-> 0], agenda |-> RootAgenda, ok |-> TRUE]
+Occluded(out, c, s) == \A p \in TileCols(c, s) : Dep(out[p]) >= c[3] + s + 1
+StepTile(st, ans) ==
+  LET di == Head(st.agenda)[1]
+      c == Head(st.agenda)[2]
+      s == TS[di]
+      fillz == c[3] + s + 1
+      rest == Tail(st.agenda)
+      stop == IF di = 1 THEN <<>> ELSE rest
+  IN CASE ans = "occ" -> [st EXCEPT !.agenda = stop]
+       [] ans = "neg" -> [st EXCEPT !.out = [p \in Cols |-> IF p \in TileCols(c, s) /\ Dep(st.out[p]) < fillz THEN 2 * fillz ELSE st.out[p]],
+                                    !.agenda = stop]
+       [] ans = "pos" -> [st EXCEPT !.agenda = rest]
+       [] ans = "amb" -> (IF di < Len(TS)
+                          THEN LET cs == SubCorners(c, s, TS[di + 1]) IN
+                               [st EXCEPT !.agenda = [i \in 1..Len(cs) |-> <<di + 1, cs[i]>>] \o rest]
+                          ELSE LET px == Pixels(st.out, c, s) IN
+                               [st EXCEPT !.out = px[1], !.ok = st.ok /\ px[2], !.agenda = rest])
+ModelAnswer(st) == LET di == Head(st.agenda)[1]  c == Head(st.agenda)[2] IN
+                   IF Occluded(st.out, c, TS[di]) THEN "occ" ELSE Oracle(policy, di, c, TS[di])
+RECURSIVE RunSteps(_)
+RunSteps(st) == IF st.agenda = <<>> THEN st ELSE RunSteps(StepTile(st, ModelAnswer(st)))
+StepsAgree == idx <= NV \/ LET r == RunSteps(StepInit) IN r.out = Result[1] /\ r.ok = Result[2]
 =========================================================================
